@@ -391,6 +391,23 @@ class C06(object):
             if int(cnt) != int(want.sum()):
                 return {"class": "count-differs", "key": "indexer.score:count-differs",
                         "detail": "indexer.score gives %d for trial %d, %d peaks lie within the tolerance" % (cnt, t + 1, int(want.sum()))}, t + 1
+        if np.isfinite(gv).all() and n:
+            # the validation histogram of |drlv| for the trial orientation: its cumulative counts are the numbers of peaks
+            # below each bin edge
+            with contextlib.redirect_stdout(io.StringIO()):
+                ix.ubis = [ubi.copy()]
+                ix.histogram_drlv_fit()
+            dr = np.sqrt(hkl_errors(ubi, gv)[2])
+            edges = np.asarray(ix.bins, float)
+            if np.abs(dr[:, None] - edges[None, :]).min() > 1e-9:
+                wanth = np.array([int(((dr >= lo) & (dr < hi)).sum()) for lo, hi in zip(edges[:-1], edges[1:])])
+                goth = np.asarray(ix.histogram)[0]
+                self.histograms = getattr(self, "histograms", 0) + 1
+                if goth.shape != wanth.shape or (goth != wanth).any():
+                    kb = int(np.argmax(goth != wanth)) if goth.shape == wanth.shape else -1
+                    return {"class": "count-differs", "key": "indexer.histogram_drlv_fit:count-differs",
+                            "detail": "histogram_drlv_fit: bin %d [%g, %g) holds %s peaks, %d peaks have their |drlv| there" %
+                                      (kb, edges[kb], edges[kb + 1], goth[kb] if kb >= 0 else "?", wanth[kb])}, len(gs["trials"])
         v = enginea.viol_from_stats(sim.stats(), "indexer.getind", {})
         return v, len(gs["trials"])
 
